@@ -2692,6 +2692,7 @@ coap_handle_request_send_block(coap_session_t *session,
     if (i + 1 < request_cnt) {
       coap_ticks(&lg_xmit->last_sent);
       coap_send_internal(session, out_pdu);
+      out_pdu = response;
     }
   }
   coap_ticks(&lg_xmit->last_payload);
@@ -2703,6 +2704,8 @@ call_app_handler:
 #endif /* COAP_Q_BLOCK_SUPPORT */
 
 internal_issue:
+  if (out_pdu != response)
+    coap_delete_pdu(out_pdu);
   response->code = COAP_RESPONSE_CODE(500);
   error_phrase = coap_response_phrase(response->code);
   coap_add_data(response, strlen(error_phrase),
